@@ -1,7 +1,7 @@
 """C15 -- Douglas: masked features inert, valid soft bins, active points as defined."""
 import itertools
 
-META = dict(level="proof", trusted_base=["z3 5.1", "own normal-form prover", "installed sklearn softmax run on exact reals under its own contract", "NumPy object-array semantics (einsum, argsort, cumsum)"])
+META = dict(level="proof", trusted_base=["Lean 4.33 kernel + Mathlib (lemma L9)", "z3 5.1", "own normal-form prover", "installed sklearn softmax run on exact reals under its own contract", "NumPy object-array semantics (einsum, argsort, cumsum)"])
 
 
 def tasks(tier, seed):
@@ -29,7 +29,11 @@ def extra(led, tier, seed):
     led.extend(o for o in predict_glue.obligations() if o.name.startswith("Douglas."))
     from contracts import dtype_native
     led.extend(dtype_native.predict_dtypes(seed, only=("Douglas",)))
+    from contracts import lean_bounds
+    led.extend(lean_bounds.obligations(tier, file="Lemmas.lean", lemmas=["bin_argmax"], fn="specs.douglas (lemma L9)"))
+    led.extend(douglas.lemma_link_L9(led.obs))
     led.assume("A1", "A2", "A3", "A4", "A8", "A5 (discharged, no longer assumed): the installed sklearn softmax has positive entries summing to 1 per row and equals the stub exp(h)/sum exp(h) (contracts/external_deps.py)",
-               "L9: with logit differences (x - c_(j))/T, as T -> 0 the arg-max bin of a sample is the number of cut points below its value, "
-               "so predictions become constant on the cells of the grid drawn by the cut points (stated consequence of the proved identity)",
+               "L9 (machine-checked for any number of cut points and every T > 0: lean/Lemmas.lean bin_argmax): with logit differences (x - c_(j))/T the strictly largest "
+               "logit of a sample is that of bin r = number of cut points below its value, whatever the temperature; hence the hard assignment reached as T -> 0 is constant on the "
+               "cells of the grid drawn by the cut points. What stays stated, not machine-checked: softmax(l) tends to the one-hot vector of the strict arg-max as the scale of l grows",
                "back-propagation through the bins is the C03 VJP contract")
